@@ -75,3 +75,28 @@ Theorem C03_derivative_twice : forall (S : SR) (sl sl2 : nat -> nat) (a b : nat)
   FoldProofs.solves S (derivative U2 sl2 b D) f2 /\ (forall s xs, f2 (sl2 (sl s)) xs = f s (a :: b :: xs)).
 Proof. intros; apply DerivProofs.derivative2_solves; assumption. Qed.
 Print Assumptions C03_derivative_twice.
+
+(* String level: the prefix weight of p is the sum of the weights of all STRINGS that begin with p, each string once
+   (at every height; a grammar with bodies of at most K symbols yields strings of length at most K^h at height h), and
+   prefix weights satisfy the prefix-sum identity  pre(p) = weight(p) + sum over the next token t of pre(p t)
+   -- any commutative semiring (proofs/PrefixStringsProofs.v, PrefixSumProofs.v). *)
+From GV.proofs Require ProductProofs PrefixStringsProofs PrefixSumProofs.
+Theorem C03_prefix_weight_is_sum_of_strings : forall (S : SR) (G : grammar S) (V : list nat) (K : nat), NoDup V ->
+  (forall r a, In r G -> In (T a) (rbody r) -> In a V) ->
+  (forall r, In r G -> length (rbody r) <= K) ->
+  forall h X p,
+    Wpre G h X p = bsum (filter (is_prefix p) (ProductProofs.words_le V (Nat.pow K h))) (fun xs => W G h X xs) /\
+    Wpre G h X p = sadd (W G h X p) (bsum V (fun t => Wpre G h X (p ++ [t]))).
+Proof.
+  intros S G V K HV Ht Hk h X p. split.
+  - exact (PrefixStringsProofs.prefix_weight_is_sum_of_all_strings S G V K HV Ht Hk h X p).
+  - exact (PrefixSumProofs.prefix_sum_identity S G V HV Ht h X p).
+Qed.
+Print Assumptions C03_prefix_weight_is_sum_of_strings.
+
+Example C03_prefix_weight_is_sum_of_strings_nonvacuous :
+  Wpre TotalStringsProofs.ex_G 3 0 [1]
+  = bsum (filter (is_prefix [1]) (ProductProofs.words_le [0; 1] (Nat.pow 2 3))) (fun xs => W TotalStringsProofs.ex_G 3 0 xs) /\
+  Wpre TotalStringsProofs.ex_G 3 0 [1] = 16%N.
+Proof. split; [exact PrefixStringsProofs.prefix_strings_instance_thm|exact (proj1 PrefixStringsProofs.prefix_strings_instance)]. Qed.
+Print Assumptions C03_prefix_weight_is_sum_of_strings_nonvacuous.
